@@ -28,6 +28,7 @@ def run(tier, seed):
         pos = common.spec_to_code(chk, cfgs, make_real, relax=RELAX, neg_cfgs=neg, tag=tag)
         common.code_to_spec(chk, cfgs, make_real, tag=tag,
                             expect_feasible=(lambda c, pos=pos: bool(pos and pos['behs'].get(c['id']))))
+    common.long_horizon(chk, tier, seed, [('orders', fam.fam_orders)], RELAX, T_quick=8, T_thorough=12)
     chk.assumptions += ['fraction lattice {0, 1/2, 1}; full execution decided exactly by enumeration']
     return chk.finish(rule='order lists (buy/sell, overlapping, straddling, wholly outside) x full/partial execution x companion assets x prices',
                       exhaustive=True)
